@@ -120,7 +120,15 @@ class Prop(BaseProp):
                 f.write(f'set(CMINX_EXECUTABLE {q(shim)})\ninclude({q(os.path.join(repo_root(), "cmake", "cminx.cmake"))})\n'
                         f'cminx_gen_rst({q(target)} {q(out1)} {" ".join(q(e) for e in extra)})\n'
                         f'file(WRITE {q(marker)} "continued")\n')
-            res.sig = sig_hash([kind, extra, tree.shape()])
+            preexisting = rng.random() < 0.4
+            if preexisting:
+                # an earlier call (or the user) already created the output directory: the call must still document
+                for o_ in (out1, out2):
+                    os.makedirs(o_)
+                    with open(os.path.join(o_, "left_over_from_earlier_call.txt"), "w") as f:
+                        f.write("x")
+                res.count("output_directory_existed_before")
+            res.sig = sig_hash([kind, extra, tree.shape(), preexisting])
             res.nontrivial = kind in ("flat", "nested") or bool(extra)
             p = subprocess.run(["cmake", "-P", drv], capture_output=True, env=env, cwd=sb, timeout=300)
             res.count("cmake_runs")
